@@ -21,6 +21,8 @@ DOMAINS = {
     "serde": {"timeout": 2400},
     "solver": {"timeout": 3000},
     "faults": {"timeout": 3000},
+    "report": {"timeout": 3000},
+    "collapse": {"timeout": 3000},
 }
 
 SOLVER_RULE = ("solver runs with a recording provider: (a) tiny scope — 2 packages x 2 versions, every slot one of 15 options (absent, "
@@ -89,6 +91,32 @@ PROPS = {
     "C14": solver_prop(None, "other",
         "per-decision check on the Coq model's decision log replayed from the Rust trace: picked package has maximal queue priority, every undecided positive package is queued with a priority reported for its current set",
         "NOT yet a Coq theorem (needs I7/I8). At every decision of every replayed run: the package the implementation asked about has the maximal last-reported priority (the model rejects the trace otherwise), every package with a positive term and no decision has a queue entry, and its latest prioritize call was for its current set. Static, set-dependent (count), scripted and history-dependent priorities are used. The root cause of F1 violated this and was found here."),
+    "C08": {
+        "props": "Props/Properties_C08.v",
+        "level": "proof",
+        "technique": "Coq proof by a reporter-state invariant over a Gallina model of DefaultStringReporter that mirrors the Rust control flow (explicit fuel, proved sufficient) + correspondence through a recording ReportFormatter on resolve trees and synthetic DAGs with forced sharing, before and after collapse_no_versions",
+        "level_text": "6 Coq theorems about Model/Report.v (report_steps = the lines DefaultStringReporter builds, each recorded as the ReportFormatter callback that produced it, its arguments and the (n) suffixes), for every VersionSet, every tree whose shared ids are consistent and whose derived nodes follow from their causes on ANY chosen set of admissible assignments (all assignments, or only those selecting existing versions - the reading used after collapse_no_versions): the model is total (fuel suffices); numbers are 1..k in order of appearance and a line carries at most one; every (n) reference points to exactly one line, which is earlier and concludes the cited terms; each explaining line's conclusion is entailed by the incompatibilities of the external facts it names, the terms of its references and - for an 'And because' line - the conclusion of the (existing, non-blank) preceding line; every external leaf is cited; the last line concludes the top node. The step list has no formatter parameter (same through report and report_with_formatter by construction). Tie: report_with_formatter is run with a recording formatter, every line decoded (callback, arguments, (n) suffixes) and compared with the extracted model; report() and report_with_formatter(default) must equal the default formatter applied to the recorded steps; an independent oracle re-checks all six clauses on the Rust steps (entailment by enumeration of assignments over the cells of the occurring bounds).",
+        "level_note": "Trusted: Coq kernel, extraction, harness/driver, the oracle of ocaml/d_report.ml. Derived.terms (a hash map) is modelled as an association list and compared sorted by package; strings are not modelled (the default formatter's text is compared inside the harness against the real DefaultStringReportFormatter applied to the recorded arguments). That trees built by resolve are shared-consistent and locally entailed is C03's business (checked there by oracle); after collapse_no_versions local entailment holds only on existing versions (C09) and the theorem is used with that set of assignments.",
+        "domains": ["report"],
+        "exhaustive": False,
+        "rule": "trees: (i) every distinct NoSolution tree of the solver generators (tiny scope: all scripts of sampled registries; small scope; random registries with 3-8 packages; single-leaf trees capped at 400); (ii) synthetic DAGs: 3-8 random external leaves (dependency incl. self-dependency and empty sets, NoVersions, Custom, at most one NotRoot) combined by 1-12 resolution steps between random earlier nodes sharing a package (union on the pivot, intersection elsewhere, always-true term dropped), nodes with in-degree >= 2 get a shared id (Arc-shared like resolve's); (iii) the result of collapse_no_versions on each of (i),(ii) when it differs. All 6 callbacks, the blank-line re-entry and the add_line_ref+recurse path occur thousands of times (histogram printed by the harness on stderr). distinct = distinct case text; non-trivial = trees with at least one derived node.",
+        "assumptions": ["shared ids label identical subtrees (SharedConsistent) and derived nodes follow from their causes (premise of the property)",
+                        "hash-map iteration order of Derived.terms is irrelevant to the compared observations (terms compared sorted)"],
+        "explanation": "",
+    },
+    "C09": {
+        "props": "Props/Properties_C09.v",
+        "level": "other",
+        "technique": "Coq proof over a Gallina model of collapse_no_versions / merge_no_versions (explicit PANIC outcome): structural clauses for all trees, semantic preservation on any admissible set of assignments for every lawful VersionSet; + correspondence and an independent semantic oracle (validity on existing versions) on resolve trees with their registries and on synthetic DAGs",
+        "level_text": "9 Coq theorems about Model/Report.v. For every VersionSet and EVERY tree: a tree without NoVersions leaves is returned unchanged; in the result every NoVersions leaf that is a cause of a derived node sits next to a NoVersions or Custom leaf; collapse panics if and only if some derived node has the causes (NoVersions, NotRoot) in either order, so it never panics otherwise, nor on its own result. For every lawful VersionSet and any set of admissible assignments on which the NoVersions leaves are true (instance: assignments selecting registry versions only): if the derived nodes of t follow from their causes, so do those of the collapsed tree; its NoVersions leaves stay true; every leaf of the result is a leaf of t or a dependency leaf fired by exactly the same admissible assignments as one of t (true of the provider stays true on existing versions); the new top node is fired wherever the old one was, so it still forbids the root. Hypotheses of the semantic theorems: well-formed (canonical) version sets in the leaves and `related t` (a NoVersions(p) cause whose sibling collapses to a dependency leaf p1->p2 is about p1 or p2; merge_no_versions does not check this and would widen the wrong set otherwise). LEFT TO EXPLORATION (why the level is not 'proof'): that trees produced by resolve contain no (NoVersions, NotRoot) pair - i.e. the 'never panics on a tree produced by resolve' clause - and satisfy `related`; both are checked on every generated resolve tree (no panic observed; `related` checked by the oracle), together with an independent re-check of all semantic clauses on the Rust result.",
+        "level_note": "Trusted: Coq kernel, extraction, harness/driver, the oracle of ocaml/d_report.ml. Arc::make_mut un-sharing is modelled by a function on trees (observationally identical: the collapsed tree is compared node by node including shared ids). For synthetic DAGs 'existing versions' are the versions outside the union of the tree's NoVersions sets per package. Leaves true of the registry and local entailment BEFORE the call are C03's business (a leaf is only blamed on collapse if all leaves were true before).",
+        "domains": ["collapse"],
+        "exhaustive": False,
+        "rule": "same tree stream as C08 (i),(ii): every distinct NoSolution tree of the solver generators together with its registry and root, and synthetic DAGs (NoVersions in about 30% of the leaves; a NoVersions leaf directly against NotRoot is generated rarely, on purpose, to exercise the panic arm: the model must predict the panic). Observation: the collapsed tree (or panic) and the report steps of the collapsed tree. distinct = distinct case text; non-trivial = trees with at least one derived node.",
+        "assumptions": ["resolve trees: leaves are true of the registry and nodes locally entailed before the call (C03)",
+                        "resolve trees contain no (NoVersions, NotRoot) pair of causes and satisfy `related` (explored on every generated tree, not proved)"],
+        "explanation": "Proved in Coq: identity without NoVersions leaves, where NoVersions leaves may survive, exact characterisation of the panic (all trees, all VersionSets); preservation of local entailment, of the truth of leaves and of what the top node forbids on existing versions (lawful VersionSets, hypothesis `related`). Explored, not proved: that resolve never builds a (NoVersions, NotRoot) pair (so: no panic on resolve trees) and that resolve trees satisfy `related`. Every generated tree is additionally re-checked by an independent oracle (entailment by enumeration of assignments restricted to registry versions).",
+    },
     "C10": {
         "translator": True,
         "props": "Props/Properties_C10.v",
